@@ -74,6 +74,18 @@ def _chain_shape_lazy(run: Run, cm, fi: FuncInfo, cfg: CFG, pvalue: str, ppath: 
         if isinstance(e, ast.Name):
             ds = [a.value for a in walk_no_nested(fi.node) if isinstance(a, ast.Assign) and len(a.targets) == 1 and is_name(a.targets[0], e.id)]
             return len(ds) == 1 and member_results(ds[0])
+        if isinstance(e, ast.Call) and isinstance(e.func, ast.Attribute) and is_name(e.func.value, "self") and [ast.unparse(a) for a in e.args] + [ast.unparse(k.value) for k in e.keywords] == [pvalue, ppath]:
+            # a generator method of the chain: `for c in self.constraints: yield c.evaluate(<its value param>, <its path param>)`
+            h = cm.functions.get(f"{fi.cls}.{e.func.attr}")
+            if h is not None:
+                hp = [a.arg for a in h.node.args.args][1:]  # type: ignore[attr-defined]
+                body = [b for b in h.node.body if not (isinstance(b, ast.Expr) and isinstance(b.value, ast.Constant))]  # type: ignore[attr-defined]
+                if len(hp) == 2 and len(body) == 1 and isinstance(body[0], ast.For) and ast.unparse(body[0].iter) == "self.constraints" and isinstance(body[0].target, ast.Name) and len(body[0].body) == 1 and not body[0].orelse:
+                    y = body[0].body[0]
+                    if isinstance(y, ast.Expr) and isinstance(y.value, ast.Yield) and isinstance(y.value.value, ast.Call):
+                        c = y.value.value
+                        return isinstance(c.func, ast.Attribute) and c.func.attr == "evaluate" and is_name(c.func.value, body[0].target.id) and [ast.unparse(a) for a in c.args] + [ast.unparse(k.value) for k in c.keywords] == hp
+            return False
         if not (isinstance(e, (ast.GeneratorExp, ast.ListComp)) and len(e.generators) == 1):
             return False
         g = e.generators[0]
@@ -82,14 +94,33 @@ def _chain_shape_lazy(run: Run, cm, fi: FuncInfo, cfg: CFG, pvalue: str, ppath: 
         c = e.elt
         return isinstance(c, ast.Call) and isinstance(c.func, ast.Attribute) and c.func.attr == "evaluate" and is_name(c.func.value, g.target.id) and [ast.unparse(a) for a in c.args] + [ast.unparse(k.value) for k in c.keywords] == [pvalue, ppath]
 
-    finals = []
-    for rn in [n for n in cfg.nodes if isinstance(n.ast, ast.Return)]:
-        v = rn.ast.value  # type: ignore[union-attr]
+    def first_failing(v: ast.AST) -> bool:
         if isinstance(v, ast.Call) and is_name(v.func, "next") and len(v.args) == 2 and isinstance(v.args[0], ast.GeneratorExp) and len(v.args[0].generators) == 1:
             ge = v.args[0]
             g = ge.generators[0]
-            if isinstance(g.target, ast.Name) and is_name(ge.elt, g.target.id) and len(g.ifs) == 1 and ast.unparse(g.ifs[0]) == f"not {g.target.id}.valid" and member_results(g.iter):
-                finals.append((rn, v))
+            return isinstance(g.target, ast.Name) and is_name(ge.elt, g.target.id) and len(g.ifs) == 1 and ast.unparse(g.ifs[0]) == f"not {g.target.id}.valid" and member_results(g.iter)
+        return False
+
+    finals = []
+    for rn in [n for n in cfg.nodes if isinstance(n.ast, ast.Return)]:
+        v = rn.ast.value  # type: ignore[union-attr]
+        if first_failing(v):
+            finals.append((rn, v))
+    if not finals:
+        # the two-step spelling: `f = next(<failing results>, None); if f is not None: return f; return <accepting result>`
+        for a in walk_no_nested(fi.node):
+            if isinstance(a, ast.Assign) and len(a.targets) == 1 and isinstance(a.targets[0], ast.Name) and first_failing(a.value) and isinstance(a.value.args[1], ast.Constant) and a.value.args[1].value is None:  # type: ignore[union-attr]
+                var = a.targets[0].id
+                blk = getattr(a, "_parent", None)
+                body = getattr(blk, "body", [])
+                i = body.index(a) if a in body else -1
+                if i >= 0 and i + 2 < len(body) + 0 and isinstance(body[i + 1], ast.If) and ast.unparse(body[i + 1].test) == f"{var} is not None" and len(body[i + 1].body) == 1 and isinstance(body[i + 1].body[0], ast.Return) and is_name(body[i + 1].body[0].value, var) and not body[i + 1].orelse and isinstance(body[i + 2], ast.Return):
+                    # read as `return next(<failing results>, <accepting result>)`
+                    rnode = [n for n in cfg.nodes if n.ast is body[i + 2]]
+                    if rnode:
+                        synth = ast.Call(func=ast.Name(id="next", ctx=ast.Load()), args=[a.value.args[0], body[i + 2].value], keywords=[])  # type: ignore[union-attr]
+                        finals.append((rnode[0], synth))
+                        two_step_return = body[i + 1].body[0]
     if len(finals) != 1:
         return False
     rn, call = finals[0]
@@ -116,6 +147,8 @@ def _chain_shape_lazy(run: Run, cm, fi: FuncInfo, cfg: CFG, pvalue: str, ppath: 
         run.violation("R08.1", cm, fi.qualname, rn.ast, "when no member fails the chain does not return an accepting result")
     # no other accepting return
     for other in [n for n in cfg.nodes if isinstance(n.ast, ast.Return) and n is not rn]:
+        if "two_step_return" in locals() and other.ast is locals()["two_step_return"]:
+            continue  # `return f` of the two-step spelling: the first failing result
         if _result_valid(other.ast.value) is not False:  # type: ignore[union-attr]
             run.violation("R08.1", cm, fi.qualname, other.ast, "ConstraintChain.evaluate can accept before every member has been evaluated (early `valid=True` return)")  # type: ignore[arg-type]
     return True
@@ -624,7 +657,16 @@ def _document_level(run: Run, vm, rule: str = "R08.6") -> None:
     if not ok:
         run.violation(rule, vm, vs.qualname, "REQ-missing test `has_req and value is None` -> E003", f"the missing-required-field check is not the documented one: {detail} (a field given as null, false or 0 would be misjudged, or the error would not name the field)")
     # chain errors are all converted
-    ev = [n for n in walk_no_nested(vs.node) if isinstance(n, ast.Call) and ast.unparse(n.func).endswith(".constraints.evaluate")]
+    def _receiver_text(c: ast.Call) -> str:
+        # the receiver of .evaluate, a local bound once standing for its definition (`chain = field_def.pattern.constraints`)
+        r = c.func.value if isinstance(c.func, ast.Attribute) else None
+        if isinstance(r, ast.Name):
+            ds = [a.value for a in walk_no_nested(vs.node) if isinstance(a, ast.Assign) and len(a.targets) == 1 and is_name(a.targets[0], r.id)]
+            if len(ds) == 1:
+                r = ds[0]
+        return ast.unparse(r) if r is not None else ""
+
+    ev = [n for n in walk_no_nested(vs.node) if isinstance(n, ast.Call) and isinstance(n.func, ast.Attribute) and n.func.attr == "evaluate" and _receiver_text(n).endswith(".constraints")]
     ok = len(ev) == 1 and {k.arg: ast.unparse(k.value) for k in ev[0].keywords} == {"value": "value", "path": "field_path"}
     loops = [n for n in walk_no_nested(vs.node) if isinstance(n, ast.For) and ast.unparse(n.iter) == "result.errors"]
     ok = ok and len(loops) == 1 and not any(isinstance(x, (ast.If, ast.Break, ast.Continue)) for st in loops[0].body for x in ast.walk(st))
@@ -632,7 +674,8 @@ def _document_level(run: Run, vm, rule: str = "R08.6") -> None:
     if not ok:
         run.violation(rule, vm, vs.qualname, "chain evaluation and error conversion", "the field's chain is not evaluated on (value, field_path) or its errors are filtered before being reported")
     # the skip of absent optional fields is exactly `value is None`
-    skips = [n for n in walk_no_nested(vs.node) if isinstance(n, ast.If) and len(n.body) == 1 and isinstance(n.body[0], ast.Continue) and "value" in names_in(n.test) and "has_req" not in names_in(n.test)]
+    # (a branch that only records constants before its `continue` is still just a skip)
+    skips = [n for n in walk_no_nested(vs.node) if isinstance(n, ast.If) and n.body and isinstance(n.body[-1], ast.Continue) and all(isinstance(b, ast.Assign) and (isinstance(b.value, ast.Constant) or (isinstance(b.value, ast.Attribute) and b.value.attr.isupper())) for b in n.body[:-1]) and "value" in names_in(n.test) and "has_req" not in names_in(n.test)]
     ok = len(skips) == 1 and ast.unparse(skips[0].test) == "value is None"
     run.instance(rule, vm.loc(vs.node), "_validate_section: only an absent value (None) skips chain evaluation", ok=ok)
     if not ok:
